@@ -108,6 +108,9 @@ func (y *yieldAst) CallFor(cond, post, body ast.Expr) *ast.CallExpr {
 	if isNil(post) {
 		return y.SeqCall(cstWhile, cond, body)
 	}
+	if isNil(cond) {
+		cond = X.Ident("nil") // for init; ; post {}
+	}
 	return y.SeqCall(cstFor, cond, post, body)
 }
 
